@@ -77,6 +77,17 @@ impl FarmSim {
     fn check_weight_change(&mut self, what: &str, user: &str, lp: &str, pre: &WPre, added: u128, removed: u128, dur: u64, st: &mut Stats) -> Result<(), String> {
         let e = self.epoch();
         self.sync_weights(user, lp);
+        if self.mon.c07 && !self.mon.c10 && added > 0 {
+            // exact shares presuppose that a deposit's weight is credited to the position's owner
+            let after = self.l.user_eff(user, lp, self.epoch() + 1);
+            let (lo, hi) = weight_bounds(added, dur);
+            let w_new = after.saturating_sub(pre.next_eff);
+            if big(w_new) < lo || big(w_new) > hi {
+                return Err(format!(
+                    "[C07] {what}: adding {added} LP for {dur}s changed the owner's weight in effect from the next epoch by {w_new}; the weight curve gives [{lo}, {hi}] — rewards are shares of this weight"
+                ));
+            }
+        }
         if !self.mon.c10 {
             return Ok(());
         }
